@@ -506,7 +506,8 @@ def c05(obs):
     if obs.get('source') is not None and obs['source'] != ref:
         v.append(('C05', 'source() is %r but the reference replacement model gives %r' % (obs['source'], ref)))
     for k, val in (obs.get('views') or {}).items():
-        if val != ref: v.append(('C05', '%s is %r but the reference replacement model gives %r' % (k, val, ref)))
+        if k in ('rope', 'buffer') and val != ref: v.append(('C05', '%s() is %r but the reference replacement model gives %r' % (k, val, ref)))
+        if k == 'size' and val != len(ref.encode('utf-8')): v.append(('C05', 'size() is %d but the reference replacement model has %d bytes' % (val, len(ref.encode('utf-8')))))
     return v
 
 
@@ -602,6 +603,26 @@ def c08(obs):
     return v
 
 
+def c07(obs):
+    v = []
+    src = obs.get('source'); vw = obs.get('views') or {}
+    if src is None: return v
+    if 'rope' in vw and vw['rope'] != src: v.append(('C07', 'rope() renders to %r but source() is %r' % (vw['rope'], src)))
+    if 'buffer' in vw and vw['buffer'] != src: v.append(('C07', 'buffer() is %r but source() is %r' % (vw['buffer'], src)))
+    if 'size' in vw and vw['size'] != len(src.encode('utf-8')): v.append(('C07', 'size() is %d but buffer() has %d bytes' % (vw['size'], len(src.encode('utf-8')))))
+    if 'writer' in vw and (vw['writer'] != src or vw.get('writer_err')): v.append(('C07', 'to_writer() wrote %r (error: %r) but buffer() is %r' % (vw['writer'], vw.get('writer_err', False), src)))
+    wf = vw.get('writerfail')
+    if wf is not None:
+        n = len(src.encode('utf-8'))
+        if wf['k'] >= n:
+            if wf['err'] or wf['written'] != src: v.append(('C07', 'a writer accepting %d >= %d bytes: to_writer returned error=%r and wrote %r' % (wf['k'], n, wf['err'], wf['written'])))
+        else:
+            if not wf['err']: v.append(('C07', 'a writer failing after %d bytes: to_writer did not return the error (buffer has %d bytes)' % (wf['k'], n)))
+            if not src.startswith(wf['written']): v.append(('C07', 'a writer failing after %d bytes: %r was written, which is not a prefix of buffer() %r' % (wf['k'], wf['written'], src)))
+    return v
+
+
+ALL['C07'] = c07
 ALL['C08'] = c08
 ALL['C05'] = c05
 ALL['C13'] = c13
